@@ -1,7 +1,7 @@
 (* C07 — Compaction never changes what a read at or above the compaction revision sees.
    Property theorems only: each is closed by `exact <lemma>` and followed by Print Assumptions. *)
 From KB Require Import Base.Cases Model.Coder Model.CompactSys Model.C07Cases
-  Proofs.Coder Proofs.CompactSafe Proofs.CompactReads Proofs.CompactWf Proofs.CompactPass Proofs.CompactRanges Proofs.CompactBorders.
+  Proofs.Coder Proofs.CompactSafe Proofs.CompactReads Proofs.CompactWf Proofs.CompactPass Proofs.CompactRanges Proofs.CompactBorders Proofs.CompactOracle.
 From Coq Require Import Sorted.
 Local Open Scope N_scope.
 
@@ -125,6 +125,53 @@ Theorem C07_delete_semantics : forall V k e n,
   (snd (do_delete V k e n) = WOk <-> exists r v0, get_at V max_rev k = Some (r, v0) /\ (e = 0 \/ e = r)).
 Proof. exact delete_semantics. Qed.
 Print Assumptions C07_delete_semantics.
+
+(* a successful (or refused) write request on a store satisfying the relaxed well-formedness, at a revision
+   above everything stored, leaves a store satisfying it again, touches no other key, and answers what the
+   specification expects from the key's latest read *)
+Theorem C07_write_keeps_wf : forall V n op,
+  wfd V -> fresh V n -> n + 1 <= max_rev -> op_ok n op ->
+  let '(V', r) := model_wop V n op in
+  wfd V' /\ fresh V' (n + 1) /\ (forall k0 R, k0 <> wop_key op -> get_at V' R k0 = get_at V R k0) /\
+  r = wop_expected 0 op (get_at V max_rev (wop_key op)).
+Proof. exact wop_step. Qed.
+Print Assumptions C07_write_keeps_wf.
+
+(* ---------- the oracle is sound: on observations the model reproduces, it reports nothing ---------- *)
+
+(* Cases whose variants have no writers interleaved (the fault / die / compare-failure placements): if the
+   model reproduces the observations (c07_check: borders, delete calls, dump after the pass, reads, write
+   round) and the case is valid (c07_valid: alphabet, non-empty keys, revisions > 0, relaxed well-formedness
+   of the dump before, the variants' reads at revisions >= R, round revisions above everything stored),
+   then the property oracle evaluated on the observations reports no violation. The oracle's clauses
+   (borders cover exactly the keys in charge, nothing outside touched, reads unchanged, the round answers
+   what the reads predict) are therefore consequences of the model theorems, not independent judgements. *)
+Theorem C07_oracle_sound : forall c, c07_valid c -> c07_check c = true -> c07_oracle c = None.
+Proof. exact c07_oracle_sound_seq. Qed.
+Print Assumptions C07_oracle_sound.
+
+(* per clause, for every variant - writers interleaved or not *)
+Theorem C07_oracle_borders_clause : forall c,
+  alpha (c7_prefix c) -> Forall alpha (c7_skipped c) -> (forall x, In x (c7_pre c) -> alpha (rkey x)) ->
+  c07_check c = true -> borders_oracle (c7_prefix c) (c7_skipped c) (c7_borders c) (c7_pre c) = None.
+Proof. exact c07_borders_clause. Qed.
+Print Assumptions C07_oracle_borders_clause.
+
+(* reads: G is the ghost store (dump before + the writers' commits, sorted), filter f G what the pass left *)
+Theorem C07_oracle_reads_clause : forall R cur G f reads,
+  StronglySorted rlt G -> uniq_ver G -> veq R (filter f G) G -> R <= max_rev ->
+  Forall (rd_ok R cur) reads ->
+  list_eqb rres_eqb7 (map (model_read G cur) reads) (map (model_read (filter f G) cur) reads) = true.
+Proof. exact c07_reads_clause. Qed.
+Print Assumptions C07_oracle_reads_clause.
+
+Theorem C07_oracle_round_clause : forall post cur reads ops fin,
+  wfd post -> fresh post (cur + 1) -> cur + 1 + N.of_nat (length ops) <= max_rev ->
+  Forall (fun q => op_ok (cur + 1) (fst q)) ops ->
+  model_round post (cur + 1) ops = Some fin ->
+  round_ok cur reads (map (model_read post cur) reads) [] ops = true.
+Proof. exact c07_round_clause. Qed.
+Print Assumptions C07_oracle_round_clause.
 
 (* ---------- non-vacuity and the hypotheses that are needed ---------- *)
 
@@ -276,3 +323,52 @@ Example C07_ex_borders_out_of_range_and_covering :
   ranges_of P [P ++ [102;111;111]] = [(P ++ [47], P ++ [48])] /\          (* /rfoo: ignored *)
   ranges_of P [[47]] = [] /\ ranges_of P [P] = [].                          (* "/" and the prefix itself: nothing to compact *)
 Proof. vm_compute. repeat split. Qed.
+
+(* C07_oracle_sound's hypotheses are satisfiable: a case over prefix /r (ra deleted, rb live), one variant in
+   which the third delete fails, reads at 0 / 105, a Create of the deleted key afterwards *)
+Definition ra : bytes := [47;114;47;97].
+Definition rb : bytes := [47;114;47;98].
+Definition exW : store :=
+  [RIdx ra 103 true; RVer ra 101 [1]; RVer ra 102 [2]; RVer ra 103 tombstone;
+   RIdx rb 105 false; RVer rb 104 [4]; RVer rb 105 [5]].
+Definition exReads : list c07_read := [RdGet ra 0; RdGet rb 105; RdList (P ++ [47]) (P ++ [48]) 0 0; RdList (P ++ [47]) (P ++ [48]) 105 1].
+Definition exVariant : c07_variant :=
+  mkV7 105 105 (map (fun o => ([], o)) [OOk; OOk; OFailOther]) 105 105 [KDelCur; KDel; KDel; KDel] None
+       ([0; 1; 5], []) None [(WCreate ra [9], WOk); (WDelete rb 105, WOk)]
+       ([2], [RIdx ra 106 false; RVer ra 106 [9]; RIdx rb 107 true; RVer rb 107 tombstone]).
+Definition exCase : c07_case :=
+  mkC7 P [] (map (fun b => encode b 0) (compact_borders P [])) exW exReads (map (model_read exW max_rev) exReads) [exVariant].
+
+Example C07_ex_oracle_sound_applies : c07_valid exCase /\ c07_check exCase = true /\ c07_oracle exCase = None.
+Proof.
+  assert (Hv : c07_valid exCase).
+  { constructor; cbn [exCase c7_prefix c7_skipped c7_pre c7_reads c7_variants].
+    - repeat constructor.
+    - constructor.
+    - intros x Hx. unfold exW, ra, rb in Hx. split_in; subst; (split; [repeat constructor|discriminate]).
+    - intros k r v Hy. unfold exW in Hy. split_in; try discriminate; injection Hy as _ <- _; lia.
+    - split; [|split].
+      + intros k r d r' d' H1 H2. unfold exW, ra, rb in *. split_in; split; congruence.
+      + intros k r v v' H1 H2. unfold exW, ra, rb in *. split_in; congruence.
+      + intros k. unfold exW, ra, rb. split; [|split].
+        * intros r H. split_in; try discriminate.
+          injection H as <- <-. exists [5]. split; [split; [cbn; auto 10|]|discriminate].
+          intros r' v' H'. split_in; try discriminate; injection H' as <- _; lia.
+        * intros r H. split_in; try discriminate.
+          injection H as <- <-. right. split; [cbn; auto 10|].
+          intros r' v' H'. split_in; try discriminate; injection H' as <- _; lia.
+        * intros Hn. left. intros r v H. split_in; injection H as <- _ _;
+            first [solve [apply (Hn 103 true); cbn; auto 10]|solve [apply (Hn 105 false); cbn; auto 10]].
+    - constructor; [|constructor]. constructor; cbn [exVariant v7_oc v7_cur v7_req v7_cur2 v7_round].
+      + eexists. reflexivity.
+      + vm_compute. discriminate.
+      + change (clamp 105 0 105) with 105. unfold exReads.
+        constructor; [left; reflexivity|]. constructor; [right; apply N.le_refl|].
+        constructor; [vm_compute; discriminate|]. constructor; [vm_compute; discriminate|constructor].
+      + split; [vm_compute; discriminate|]. unfold exW. split; intros k r x H; split_in; try discriminate;
+          first [injection H as _ <- _|injection H as _ <-]; lia.
+      + vm_compute. discriminate.
+      + repeat constructor; cbn; try discriminate; lia. }
+  assert (Hc : c07_check exCase = true) by (vm_compute; reflexivity).
+  split; [exact Hv|]. split; [exact Hc|]. exact (c07_oracle_sound_seq exCase Hv Hc).
+Qed.
